@@ -11,7 +11,8 @@ A construct outside the supported subset makes the translator REFUSE the whole f
 skip a statement): the function is then absent from Gen_leaf.v, the Coq development no longer
 compiles, and tools/props/c19.py reports the refusal as a broken obligation.
 
-Usage:  translate.py [--stdout]     (exit status 1 if any required function was refused)
+Usage:  translate.py [--transpose] [--stdout]     (exit status 1 if any required function was refused)
+        --transpose: the transpose kernels of mzd.c in offset mode -> coq/Leaf/Gen_transpose.v (class FnP)
 """
 import json, os, re, subprocess, sys
 
@@ -127,6 +128,8 @@ class Unit:
         m = re.match(r"^(.*)\[(\d+)\]$", s)
         if m:
             k = self._ctype(m.group(1))
+            if k[0] == "ptr":
+                return ("parr", k[1], int(m.group(2)))      # only the offset-mode translation accepts these
             if k[0] != "int":
                 raise Refuse("array of non-integers: " + s)
             return ("arr", k[1], int(m.group(2)))
@@ -638,8 +641,8 @@ Local Open Scope string_scope.
 """
 
 
-def generate():
-    """-> (text of Gen_leaf.v, {coq function name: reason} of refusals)"""
+def _setup():
+    """scratch include tree with an instantiated m4ri_config.h -> (include dir, clang flags)"""
     tree = vlib.copy_tree()
     v = vlib.variant()
     inc = os.path.join(vlib.scratch(), "t1inc")
@@ -651,11 +654,17 @@ def generate():
         with open(os.path.join(inc, "m4ri", "m4ri_config.h"), "w") as fh:
             fh.write(vlib._config_h(tree, v))
     flags = [f for f in vlib.cflags(v) if f.startswith("-D") or f in ("-msse2",)] + ["-I/usr/include/libpng16"]
+    return inc, flags
+
+
+def _generate(units, progname, header, fnclass, flat_names=False):
+    """-> (text of the generated file, {coq function name: reason} of refusals)"""
+    inc, flags = _setup()
     defs, order, refused = {}, [], {}
 
     def resolve_callee_factory(unit_prefix):
         def resolve(unit, cname):
-            coq = cname if unit_prefix == "main" else "%s_%s" % (unit_prefix, cname)
+            coq = cname if (unit_prefix == "main" or flat_names) else "%s_%s" % (unit_prefix, cname)
             want(unit, cname, coq)
             if coq in refused:
                 raise Refuse("callee %s was refused: %s" % (cname, refused[coq]))
@@ -671,7 +680,7 @@ def generate():
             return
         defs[coq] = None            # cycle guard
         try:
-            txt = Fn(unit, node, resolve_callee_factory(unit.name)).translate(coq)
+            txt = fnclass(unit, node, resolve_callee_factory(unit.name)).translate(coq)
         except Refuse as e:
             del defs[coq]
             refused[coq] = str(e)
@@ -683,7 +692,7 @@ def generate():
         defs[coq] = txt
         order.append(coq)
 
-    for uname, stub, fns in UNITS:
+    for uname, stub, fns in units:
         try:
             unit = Unit(uname, stub, inc, flags)
         except vlib.BuildError as e:
@@ -693,14 +702,491 @@ def generate():
         for cname, coq in fns:
             want(unit, cname, coq)
 
-    out = [HEADER]
+    out = [header]
     for coq in order:
         out.append(defs[coq])
         out.append("\n")
     for coq, why in sorted(refused.items()):
         out.append("(* REFUSED %s: %s *)\n" % (coq, why.replace("*)", "* )").replace("(*", "( *")))
-    out.append("\nDefinition leaf_prog : program :=\n [%s].\n" % ";\n  ".join('("%s", f_%s)' % (c, c) for c in order))
+    out.append("\nDefinition %s : program :=\n [%s].\n" % (progname, ";\n  ".join('("%s", f_%s)' % (c, c) for c in order)))
     return "".join(out), refused
+
+
+def generate():
+    """-> (text of Gen_leaf.v, {coq function name: reason} of refusals)"""
+    return _generate(UNITS, "leaf_prog", HEADER, Fn)
+
+
+# ------------------------------------------------------------------------------------------------
+# Offset mode (the transpose kernels of mzd.c, `translate.py --transpose` -> Leaf/Gen_transpose.v)
+#
+# CMini has pointers into blocks but no pointer comparison, and its pointer arithmetic may not leave
+# the block even transiently.  The kernels bump pointers across rows (`wk += rowstride_dst`), compare
+# them (`wk < end`) and keep pointers in small arrays (`wk[2]`).  In offset mode every C pointer is the
+# pair (root, offset): the ROOT is a pointer parameter or a local/file-scope array, fixed STATICALLY
+# per pointer variable (every assignment to the variable must come from the same root, otherwise the
+# function is refused); the OFFSET is an ordinary `long` variable.
+#   word *p = q + e      ~>  long p_off = q_off + (long)e            (root(p) := root(q))
+#   p += e               ~>  p_off = p_off + (long)e
+#   *p, p[i], *(p + i)   ~>  root[p_off + (long)i]                   (bounds-checked block access)
+#   p < q                ~>  p_off < q_off                           (same root required)
+#   f(p)                 ~>  f(root, p_off)        a pointer parameter is two parameters (block, long)
+#   T *a[2]              ~>  two offset variables; subscripts must be integer constants
+# Differences to ISO C, all on the permissive side for arithmetic and strict for accesses: an offset may
+# leave [0, extent] as long as it is not dereferenced (C: UB; the kernels do form `end` beyond the
+# last row of a window); `restrict` is ignored (it only adds UB).  `++`/`--` inside a full expression
+# are hoisted before (prefix) or after (postfix) the statement when the variable occurs exactly once
+# in that full expression and not under && || ?:.  do { } while (c) is a loop whose last statement is
+# `if (!c) break`.  File-scope arrays that are const, or static and only ever read by subscripting in
+# the whole translation unit, are materialised as initialised local arrays of the function.
+# ------------------------------------------------------------------------------------------------
+def _walk(n, anc, f):
+    if not isinstance(n, dict):
+        return
+    f(n, anc)
+    anc.append(n)
+    for c in n.get("inner", []):
+        _walk(c, anc, f)
+    anc.pop()
+
+
+def readonly_global(unit, gid):
+    """every reference to the file-scope array gid in a function body of the unit is  g[e]  read as a value"""
+    cache = unit.__dict__.setdefault("_ro", {})
+    if gid not in cache:
+        ok = [True]
+
+        def visit(n, anc):
+            if n.get("kind") == "DeclRefExpr" and n.get("referencedDecl", {}).get("id") == gid:
+                up = [a for a in anc if a.get("kind") not in ("ParenExpr",)]
+                good = (len(up) >= 3 and up[-1].get("kind") == "ImplicitCastExpr" and up[-1].get("castKind") == "ArrayToPointerDecay"
+                        and up[-2].get("kind") == "ArraySubscriptExpr" and Fn.strip(up[-2]["inner"][0]) is up[-1]
+                        and up[-3].get("kind") == "ImplicitCastExpr" and up[-3].get("castKind") == "LValueToRValue")
+                if not good:
+                    ok[0] = False
+        for fn in unit.functions.values():
+            _walk(fn, [], visit)
+        cache[gid] = ok[0]
+    return cache[gid]
+
+
+class FnP(Fn):
+    OFF = "tlong"
+
+    def __init__(self, unit, node, resolve_callee):
+        Fn.__init__(self, unit, node, resolve_callee)
+        self.pinfo = {}       # decl id | (decl id, index)  ->  {"off": var, "root": var or None}
+        self.garr = {}        # file-scope array decl id -> (local var, Sdeclarr text)
+        self.pre = self.post = None
+        self.fullexpr = None
+        self.done = {}
+
+    # ---- side effects inside full expressions ---------------------------------------------------
+    def with_effects(self, n, f):
+        save = (self.pre, self.post, self.fullexpr, self.done)
+        self.pre, self.post, self.fullexpr, self.done = [], [], n, {}
+        try:
+            r = f(n)
+            return self.pre, r, self.post
+        finally:
+            self.pre, self.post, self.fullexpr, self.done = save
+
+    def no_effects(self, n, f):
+        pre, r, post = self.with_effects(n, f)
+        if pre or post:
+            raise Refuse("++/-- in a position where it cannot be hoisted")
+        return r
+
+    @staticmethod
+    def count_refs(n, vid):
+        c = [0]
+
+        def visit(x, anc):
+            if x.get("kind") == "DeclRefExpr" and x.get("referencedDecl", {}).get("id") == vid:
+                c[0] += 1
+        _walk(n, [], visit)
+        return c[0]
+
+    def incdec(self, n):
+        if self.pre is None:
+            raise Refuse("++/-- nested in an expression that is not a hoistable full expression")
+        if n["id"] in self.done:
+            return self.done[n["id"]]
+        l = self.strip(n["inner"][0])
+        if l.get("kind") != "DeclRefExpr" or l["referencedDecl"]["id"] not in self.vars:
+            raise Refuse("++/-- of something that is not a local variable")
+        vid = l["referencedDecl"]["id"]
+        num, _, kind = self.vars[vid]
+        if kind[0] != "int":
+            raise Refuse("++/-- on a non-integer inside an expression")
+        if self.count_refs(self.fullexpr, vid) != 1:
+            raise Refuse("variable modified by ++/-- occurs more than once in the full expression")
+        tl = kind[1]
+        tp = promote(tl)
+        e = "(Ebinop %s %s %s (Econst 1))" % ("Oadd" if n["opcode"] == "++" else "Osub", tp, self.cast(tp, tl, "(Evar %d)" % num))
+        upd = "(Sassign (Lvar %d) %s)" % (num, self.cast(tl, tp, e))
+        (self.post if n.get("isPostfix") else self.pre).append(upd)
+        self.done[n["id"]] = "(Evar %d)" % num
+        return self.done[n["id"]]
+
+    # ---- pointers = (root, offset) --------------------------------------------------------------
+    def ptr(self, n):
+        raise Refuse("internal: plain pointer translation reached in offset mode")
+
+    def off_add(self, off, n, neg=False):
+        t = self.u.ity(n["type"])
+        if t == "tulong":
+            raise Refuse("pointer offset of type unsigned long")
+        i = self.cast(self.OFF, t, self.rv(n))
+        if neg:
+            return "(Ebinop Osub %s %s %s)" % (self.OFF, off, i)
+        if off == "(Econst 0)":
+            return i
+        return "(Ebinop Oadd %s %s %s)" % (self.OFF, off, i)
+
+    def global_array(self, ref):
+        g = self.u.globals.get(ref["id"])
+        if g is None:
+            raise Refuse("decay of an array that is neither local nor file-scope")
+        if ref["id"] in self.garr:
+            return self.garr[ref["id"]][0]
+        kind = self.u.ctype(g["type"])
+        if kind[0] != "arr":
+            raise Refuse("file-scope array of non-integers")
+        if not Unit.is_const(g["type"]):
+            if g.get("storageClass") != "static" or not readonly_global(self.u, ref["id"]):
+                raise Refuse("file-scope array %s is neither const nor a static that is only read" % g.get("name"))
+        il = [c for c in g.get("inner", []) if c.get("kind") == "InitListExpr"]
+        if len(il) != 1:
+            raise Refuse("file-scope array %s has no initialiser list" % g.get("name"))
+        sub = Fn(self.u, None, self.resolve_callee)
+        items = []
+        for c in il[0].get("inner", []):
+            if self.u.ity(c["type"]) != kind[1]:
+                raise Refuse("array initialiser not converted to the element type")
+            items.append(sub.rv(c))
+        if len(items) > kind[2]:
+            raise Refuse("too many initialisers")
+        x = len(self.order) + 1
+        self.order.append((x, g.get("name", "_"), kind))
+        self.garr[ref["id"]] = (x, "(Sdeclarr %d %d (Some [%s]))" % (x, kind[2], "; ".join(items)))
+        return x
+
+    def pslot(self, n):
+        """n: lvalue expression of pointer type -> its pinfo record"""
+        n = self.strip(n)
+        k = n.get("kind")
+        if k == "DeclRefExpr" and n["referencedDecl"]["id"] in self.pinfo:
+            return self.pinfo[n["referencedDecl"]["id"]]
+        if k == "ArraySubscriptExpr":
+            a, i = n["inner"]
+            a = self.strip(a)
+            if a.get("kind") == "ImplicitCastExpr" and a.get("castKind") == "ArrayToPointerDecay":
+                d = self.strip(a["inner"][0])
+                if d.get("kind") == "DeclRefExpr":
+                    key = (d["referencedDecl"]["id"], self.const_eval(i))
+                    if key in self.pinfo:
+                        return self.pinfo[key]
+            raise Refuse("pointer array subscripted by a non-constant or out of range")
+        raise Refuse("unsupported pointer lvalue %s" % k)
+
+    def ptr2(self, n):
+        """pointer-valued expression -> (root variable, offset expression of type long)"""
+        n = self.strip(n)
+        k = n.get("kind")
+        if self.u.ctype(n["type"])[0] not in ("ptr", "arr"):
+            raise Refuse("pointer expected")
+        if k in ("ImplicitCastExpr", "CStyleCastExpr"):
+            ck = n.get("castKind")
+            inner = n["inner"][0]
+            if ck == "LValueToRValue":
+                s = self.pslot(inner)
+                if s["root"] is None:
+                    raise Refuse("pointer variable used before an assignment fixed its root")
+                return s["root"], "(Evar %d)" % s["off"]
+            if ck == "ArrayToPointerDecay":
+                d = self.strip(inner)
+                if d.get("kind") != "DeclRefExpr":
+                    raise Refuse("decay of a non-variable array")
+                ref = d["referencedDecl"]
+                if ref["id"] in self.vars:
+                    num, _, kind = self.vars[ref["id"]]
+                    if kind[0] != "arr":
+                        raise Refuse("decay of an array of pointers")
+                    return num, "(Econst 0)"
+                return self.global_array(ref), "(Econst 0)"
+            if ck in ("NoOp", "BitCast"):
+                if self.u.ctype(n["type"])[1:2] != self.u.ctype(inner["type"])[1:2]:
+                    raise Refuse("pointer cast changes the pointee type")
+                return self.ptr2(inner)
+            raise Refuse("unsupported pointer cast " + str(ck))
+        if k == "BinaryOperator" and n.get("opcode") in ("+", "-"):
+            a, b = n["inner"]
+            ka, kb = self.u.ctype(a["type"])[0], self.u.ctype(b["type"])[0]
+            if ka == "ptr" and kb == "int":
+                root, off = self.ptr2(a)
+                return root, self.off_add(off, b, neg=(n["opcode"] == "-"))
+            if ka == "int" and kb == "ptr" and n["opcode"] == "+":
+                root, off = self.ptr2(b)
+                return root, self.off_add(off, a)
+            raise Refuse("unsupported pointer arithmetic")
+        raise Refuse("unsupported pointer expression %s" % k)
+
+    def access(self, n):
+        """lvalue of integer type reached through a pointer -> (root, offset) or None"""
+        k = n.get("kind")
+        if k == "ArraySubscriptExpr":
+            a, i = n["inner"]
+            root, off = self.ptr2(a)
+            return root, self.off_add(off, i)
+        if k == "UnaryOperator" and n.get("opcode") == "*":
+            return self.ptr2(n["inner"][0])
+        return None
+
+    def read_lvalue(self, n):
+        n = self.strip(n)
+        if self.u.ctype(n["type"])[0] != "int":
+            raise Refuse("value of a non-integer lvalue")
+        acc = self.access(n)
+        if acc:
+            return "(Eindex (Evar %d) %s)" % acc
+        return Fn.read_lvalue(self, n)
+
+    def lv(self, n):
+        n = self.strip(n)
+        acc = self.access(n)
+        if acc:
+            return "(Lindex (Evar %d) %s)" % acc
+        return Fn.lv(self, n)
+
+    def set_root(self, slot, root):
+        if slot["root"] is None:
+            slot["root"] = root
+        elif slot["root"] != root:
+            raise Refuse("pointer variable assigned from two different arrays")
+
+    # ---- expressions ------------------------------------------------------------------------------
+    def rv(self, n):
+        k = n.get("kind")
+        if k == "UnaryOperator" and n.get("opcode") in ("++", "--"):
+            return self.incdec(n)
+        if k == "BinaryOperator" and n.get("opcode") in self.CMP:
+            a, b = n["inner"]
+            if self.u.ctype(a["type"])[0] == "ptr" or self.u.ctype(b["type"])[0] == "ptr":
+                ra, oa = self.ptr2(a)
+                rb, ob = self.ptr2(b)
+                if ra != rb:
+                    raise Refuse("comparison of pointers into different arrays")
+                return "(Ecmp %s %s %s)" % (self.CMP[n["opcode"]], oa, ob)
+        if k == "BinaryOperator" and n.get("opcode") in ("&&", "||") and not self.pure(n["inner"][1]):
+            raise Refuse("side effect in a conditionally evaluated operand")
+        if k == "ConditionalOperator" and not (self.pure(n["inner"][1]) and self.pure(n["inner"][2])):
+            raise Refuse("side effect in a conditionally evaluated operand")
+        return Fn.rv(self, n)
+
+    # ---- statements -------------------------------------------------------------------------------
+    def call(self, n, dst):
+        callee = self.strip(n["inner"][0])
+        while callee.get("kind") == "ImplicitCastExpr":
+            callee = self.strip(callee["inner"][0])
+        if callee.get("kind") != "DeclRefExpr" or callee["referencedDecl"].get("kind") != "FunctionDecl":
+            raise Refuse("indirect call")
+        name = callee["referencedDecl"]["name"]
+        if name in DIE_FUNCTIONS:
+            return "Sdie"
+        cname = self.resolve_callee(self.u, name)
+        args = []
+        for a in n["inner"][1:]:
+            if self.u.ctype(a["type"])[0] == "ptr":
+                root, off = self.ptr2(a)
+                args += ["(Evar %d)" % root, off]
+            else:
+                args.append(self.rv(a))
+        return "(Scall %s \"%s\" [%s])" % ("(Some %s)" % dst if dst else "None", cname, "; ".join(args))
+
+    def expr_stmt(self, n):
+        n = self.strip(n)
+        k = n.get("kind")
+        if k == "BinaryOperator" and n.get("opcode") == ",":
+            return self.seq([self.expr_stmt(c) for c in n["inner"]])
+        pre, s, post = self.with_effects(n, self.expr_stmt1)
+        return self.seq(pre + [s] + post)
+
+    def expr_stmt1(self, n):
+        k = n.get("kind")
+        if k == "BinaryOperator" and n.get("opcode") == "=" and self.u.ctype(n["inner"][0]["type"])[0] == "ptr":
+            l, r = n["inner"]
+            slot = self.pslot(l)
+            root, off = self.ptr2(r)
+            self.set_root(slot, root)
+            return "(Sassign (Lvar %d) %s)" % (slot["off"], off)
+        if k == "CompoundAssignOperator" and self.u.ctype(n["inner"][0]["type"])[0] == "ptr":
+            l, r = n["inner"]
+            if n["opcode"] not in ("+=", "-="):
+                raise Refuse("compound assignment %s on a pointer" % n["opcode"])
+            slot = self.pslot(l)
+            if slot["root"] is None:
+                raise Refuse("pointer variable used before an assignment fixed its root")
+            return "(Sassign (Lvar %d) %s)" % (slot["off"], self.off_add("(Evar %d)" % slot["off"], r, neg=(n["opcode"] == "-=")))
+        if k == "UnaryOperator" and n.get("opcode") in ("++", "--") and self.u.ctype(n["inner"][0]["type"])[0] == "ptr":
+            raise Refuse("++/-- on a pointer")
+        return Fn.expr_stmt(self, n)
+
+    def new_off(self, name):
+        x = len(self.order) + 1
+        self.order.append((x, name, ("int", self.OFF)))
+        return x
+
+    def decl(self, d):
+        if d.get("kind") != "VarDecl":
+            raise Refuse("unsupported declaration %s" % d.get("kind"))
+        kind = self.u.ctype(d["type"])
+        if kind[0] not in ("ptr", "parr"):
+            return Fn.decl(self, d)
+        if d.get("storageClass") in ("static", "extern"):
+            raise Refuse("static pointer local")
+        init = [c for c in d.get("inner", []) if "kind" in c and not c["kind"].endswith("Comment") and not c["kind"].endswith("Attr")]
+        if kind[0] == "parr":
+            if init:
+                raise Refuse("initialised array of pointers")
+            out = []
+            for i in range(kind[2]):
+                x = self.new_off("%s[%d]" % (d.get("name", "_"), i))
+                self.pinfo[(d["id"], i)] = {"off": x, "root": None}
+                out.append("(Sdecl %d None)" % x)
+            return self.seq(out)
+        if not init:
+            x = self.new_off(d.get("name", "_"))
+            self.pinfo[d["id"]] = {"off": x, "root": None}
+            return "(Sdecl %d None)" % x
+        root, off = self.no_effects(init[0], self.ptr2)
+        x = self.new_off(d.get("name", "_"))
+        self.pinfo[d["id"]] = {"off": x, "root": root}
+        return "(Sdecl %d (Some %s))" % (x, off)
+
+    @staticmethod
+    def direct_continue(n):
+        if not isinstance(n, dict):
+            return False
+        if n.get("kind") == "ContinueStmt":
+            return True
+        if n.get("kind") in ("ForStmt", "WhileStmt", "DoStmt"):
+            return False
+        return any(FnP.direct_continue(c) for c in n.get("inner", []))
+
+    def st(self, n):
+        k = n.get("kind")
+        if k == "IfStmt":
+            parts = n["inner"]
+            if len(parts) not in (2, 3) or any(n.get(x) for x in ("hasInit", "hasVar")):
+                raise Refuse("unsupported if form")
+            pre, c, post = self.with_effects(parts[0], self.rv)
+            if post:
+                raise Refuse("postfix ++/-- in a condition")
+            a = self.st(parts[1])
+            b = self.st(parts[2]) if len(parts) == 3 else "Sskip"
+            return self.seq(pre + ["(Sif %s\n %s\n %s)" % (c, a, b)])
+        if k == "DoStmt":
+            body, cond = n["inner"]
+            if self.direct_continue(body):
+                raise Refuse("continue in a do-while body")
+            b = self.st(body)
+            pre, c, post = self.with_effects(cond, self.rv)
+            if post:
+                raise Refuse("postfix ++/-- in a condition")
+            return "(Sloop None\n %s\n Sskip)" % self.seq([b] + pre + ["(Sif %s Sskip Sbreak)" % c])
+        if k == "ForStmt":
+            init, condvar, cond, inc, body = n["inner"]
+            if condvar:
+                raise Refuse("condition variable")
+            i = "Sskip"
+            if init:
+                i = self.st(init) if init.get("kind") == "DeclStmt" else self.expr_stmt(init)
+            c = "(Some %s)" % self.no_effects(cond, self.rv) if cond else "None"
+            b = self.st(body)
+            s = self.expr_stmt(inc) if inc else "Sskip"
+            return self.seq([i, "(Sloop %s\n %s\n %s)" % (c, b, s)])
+        if k == "WhileStmt":
+            if len(n["inner"]) != 2:
+                raise Refuse("unsupported while form")
+            return "(Sloop (Some %s)\n %s\n Sskip)" % (self.no_effects(n["inner"][0], self.rv), self.st(n["inner"][1]))
+        if k == "ReturnStmt" and n.get("inner") and self.strip(n["inner"][0]).get("kind") != "CallExpr":
+            self.no_effects(n["inner"][0], self.rv)
+        return Fn.st(self, n)
+
+    def translate(self, coqname):
+        n = self.node
+        params = []
+        body = None
+        for c in n.get("inner", []):
+            if c.get("kind") == "ParmVarDecl":
+                kind = self.u.ctype(c["type"])
+                if kind[0] == "int":
+                    params.append("(%d, Pint %s)" % (self.declare(c, kind), kind[1]))
+                elif kind[0] == "ptr":
+                    b = self.declare(c, kind)
+                    o = self.new_off(c.get("name", "_") + "_off")
+                    self.pinfo[c["id"]] = {"off": o, "root": b}
+                    params.append("(%d, Pptr %s)" % (b, kind[1]))
+                    params.append("(%d, Pint %s)" % (o, self.OFF))
+                else:
+                    raise Refuse("unsupported parameter type")
+            elif c.get("kind") == "CompoundStmt":
+                body = c
+        if n.get("variadic"):
+            raise Refuse("variadic function")
+        m = re.match(r"^(.*?)\(", n["type"]["qualType"])
+        rk = self.u._ctype(m.group(1))
+        if rk[0] == "void":
+            ret = "None"
+        elif rk[0] == "int":
+            ret = "(Some %s)" % rk[1]
+        else:
+            raise Refuse("unsupported result type")
+        b = self.st(body)
+        b = self.seq([txt for _, txt in self.garr.values()] + [b])
+        vars_doc = ", ".join("%d=%s" % (num, name) for num, name, _ in self.order)
+        return ("(* variables: %s *)\nDefinition f_%s : func := {|\n fn_params := [%s]%%positive;\n fn_ret := %s;\n fn_body :=\n %s |}.\n"
+                % (vars_doc, coqname, "; ".join(params), ret, b))
+
+
+GEN_T = os.path.join(vlib.COQ, "Leaf", "Gen_transpose.v")
+
+UNITS_T = [
+    ("mzd", STUB_MZD, [
+        ("_mzd_copy_transpose_64x64", "_mzd_copy_transpose_64x64"),
+        ("_mzd_copy_transpose_64x64_2", "_mzd_copy_transpose_64x64_2"),
+        ("_mzd_transpose_Nxjx64", "_mzd_transpose_Nxjx64"),
+        ("_mzd_copy_transpose_lt64x64", "_mzd_copy_transpose_lt64x64"),
+        ("_mzd_copy_transpose_64xlt64", "_mzd_copy_transpose_64xlt64"),
+        ("_mzd_copy_transpose_le8xle8", "_mzd_copy_transpose_le8xle8"),
+        ("_mzd_copy_transpose_le16xle16", "_mzd_copy_transpose_le16xle16"),
+        ("_mzd_copy_transpose_le32xle32", "_mzd_copy_transpose_le32xle32"),
+        ("_mzd_copy_transpose_le64xle64", "_mzd_copy_transpose_le64xle64"),
+        ("_mzd_copy_transpose_small", "_mzd_copy_transpose_small"),
+    ]),
+]
+
+HEADER_T = """(* GENERATED by tools/translate.py --transpose from the clang AST of the working tree of the repository
+   (m4ri/mzd.c, the transpose kernels).  DO NOT EDIT: regenerated on every check run.
+   Offset mode: every C pointer is (root block, long offset); a pointer parameter is two parameters.
+   See the comment above class FnP in tools/translate.py for the exact modelling rules. *)
+From Coq Require Import ZArith List String.
+From M4 Require Import Leaf.CMini.
+Import ListNotations.
+Local Open Scope Z_scope.
+Local Open Scope string_scope.
+
+"""
+
+
+def generate_transpose():
+    return _generate(UNITS_T, "transpose_prog", HEADER_T, FnP, flat_names=True)
+
+
+def regenerate_transpose():
+    text, refused = generate_transpose()
+    return vlib.write_if_changed(GEN_T, text), refused
 
 
 def regenerate():
@@ -710,7 +1196,14 @@ def regenerate():
 
 
 if __name__ == "__main__":
-    if "--stdout" in sys.argv:
+    if "--transpose" in sys.argv:
+        if "--stdout" in sys.argv:
+            text, refused = generate_transpose()
+            sys.stdout.write(text)
+        else:
+            changed, refused = regenerate_transpose()
+            print("Gen_transpose.v %s" % ("rewritten" if changed else "unchanged"))
+    elif "--stdout" in sys.argv:
         text, refused = generate()
         sys.stdout.write(text)
     else:
